@@ -222,6 +222,19 @@ def _split_case(draw):
     spec["opts"] = {"box": [edge, edge, edge], "split": strings}
     spec["split"] = splits
     spec["kind"] = "split"
+    first = spec["molecules"][0][0]
+    if len(spec["molecules"]) >= 2 and all(n != first for n, _ in spec["molecules"][1:]) and draw(st.integers(0, 2)) == 0:
+        # the molecules of the first [ molecules ] line are there already (-c) and are left alone (-ignore): their
+        # residues are split like everybody else's
+        from . import c03
+        mt = [m for m in spec["moltypes"] if m["name"] == first][0]
+        spec["coords"] = draw(c03.supplied_coords(spec, [edge, edge, edge], mode="c",
+                                                  nres=len(mt["residues"]) * spec["molecules"][0][1]))
+        if spec["coords"] and spec["coords"]["nres"] == len(mt["residues"]) * spec["molecules"][0][1]:
+            spec["opts"]["ignore"] = [first]
+            spec["split_with_ignored"] = True
+        else:
+            spec["coords"] = None
     return spec
 
 
